@@ -1,6 +1,4 @@
 import SqlObjVerif.Lemmas.CodecXBase
-import SqlObjVerif.Lemmas.CodecXInt
-import SqlObjVerif.Lemmas.CodecXFk
 /-!
 # CodecX — the translated Int / Bool / String / Unicode / Enum / ForeignKey validators = the hand model
 
